@@ -50,8 +50,14 @@ where
                         }
                         current[w].store(i, Ordering::Relaxed);
                         // a panic of the harness itself is never a verdict
-                        if let Err(p) = crate::util::panics::catch(|| f(i, &mut acc)) {
+                        // every third case runs with a TRACE subscriber installed (see util/trace.rs)
+                        let traced = i % 3 == 1;
+                        if let Err(p) = crate::util::panics::catch(|| crate::util::trace::scoped(traced, || f(i, &mut acc))) {
                             acc.inconclusive(format!("harness panicked in case {}: {}", i, p.0));
+                        }
+                        if traced {
+                            acc.inc("cases_run_under_a_trace_subscriber");
+                            acc.count("trace_events_and_spans_formatted", crate::util::trace::take_count());
                         }
                     }
                     current[w].store(u64::MAX, Ordering::Relaxed);
